@@ -267,6 +267,30 @@ CallResult observedCall(Sink &s, const std::string &id, Circuit &c, int st, cons
         throw std::runtime_error("nested placement call failed");
       }
     }
+    // The protocol is per circuit: a placement call on ANOTHER, independent circuit made from this callback (a trial
+    // legalization of a copy, say) must protect that circuit inside its own callbacks, and must leave this one busy.
+    // Oracle only (the model follows one circuit): first callback of every observed outermost call with a callback.
+    if (depth == 0 && j == 0 && !g_bail) {
+      Circuit other = c;          // a copy is an independent circuit; copying must not carry the busy state of a running call
+      other.isInUse_ = false;     // (what a freshly built circuit with the same data has)
+      int cbs2 = 0;
+      std::string accepted;
+      PlacementCallback cb2 = [&](PlacementStep) {
+        ++cbs2;
+        for (auto &sc2 : structuralSetters(other)) {
+          std::string before2 = snap(other);
+          try { sc2.run(other); accepted = sc2.name; } catch (...) {}
+          if (snap(other) != before2 && accepted.empty()) accepted = sc2.name + " (refused but modified)";
+        }
+      };
+      try { other.legalize(ColoquinteParameters(1), cb2); } catch (...) {}
+      s.count("other_circuit_calls");
+      if (cbs2 > 0) s.count("other_circuit_calls_with_callbacks");
+      s.eval();
+      if (!accepted.empty())
+        s.fail(id, "a placement call on another, independent circuit made from " + here + " did not protect that circuit: its callback got structural setter " + accepted + " accepted");
+      if (!c.isInUse_) s.fail(id, "a placement call on another circuit made from " + here + " released this circuit while its own call is still running");
+    }
     if (g_bail) {
       r.callbackThrew = true;
       s.op("cbthrow");
